@@ -14,6 +14,7 @@ def run(res, work, tier, seed):
     # same moment in different scopes from specifications whose cache identities collide must each get their own bounds
     # (samples recorded through a histogram that was handed another one's storage are delivered under the wrong buckets)
     vlib.run_core_family(res, work, "c20", tier, seed, parts=4, clauses={"KeepsOwnBounds", "NoCrash"}, timeout=3400)
+    free(res, work, tier, seed)
     from props import corestep
     corestep.run(res, work, tier, seed, "C09")   # step-level replay of the st-c09 scenarios through TallyCore.tla (drift, not a verdict)
     if tier == "thorough":
@@ -41,3 +42,23 @@ def race_clause(res, work, seed):
         res.violation("DataRace", "Go race detector report", dict(report=txt[:6000]))
     elif p.returncode != 0:
         raise vlib.Infra("race run failed rc=%d\n%s" % (p.returncode, p.stdout[-3000:]))
+
+
+def free(res, work, tier, seed):
+    """Free-running: the first metrics of a fresh sub-scope requested by six goroutines at the same moment (the window
+    between a probe and the lock that follows has no hook inside; the scheduler cannot put two goroutines into it)."""
+    import os
+    out = os.path.join(work, "free")
+    os.makedirs(out)
+    vlib.stage_specs(out)
+    vlib.run_vh(["c09free", "-out", out, "-seed", seed, "-tier", tier], timeout=1800)
+    meta = vlib.read_meta(out)
+    trace = os.path.join(out, "trace.ndjson")
+    fails, r = vlib.tlc_trace(out, "TallyObsTrace.tla", "TallyObsTrace.cfg", trace, meta["events"], timeout=3000, boundary='"e":"scn"')
+    if r["violated"] or not r["consumed"]:
+        raise vlib.Infra("TallyObsTrace did not consume the c09free trace: %s\n%s" % (r["violated"], r["out"][-2000:]))
+    res.add_trace_run("TallyObsTrace concurrent first metrics of a fresh sub-scope (free-running)", r, meta["cases"], meta["events"])
+    res.states += r["distinct"]; res.transitions += r["generated"]
+    lines = vlib.read_lines(trace)
+    res.judge_fails([f for f in fails if f[1] in CLAUSES], lines, lambda ln: vlib.case_context(lines, max(ln, 1), lambda s: '"e":"scn"' in s, max_lines=30))
+    res.evaluations += meta["evals"]
